@@ -295,6 +295,11 @@ func (w *vf09World) final() string {
 		}
 		return "the call/return history is not linearizable against the sequential allocator model:" + sb.String()
 	}
+	// the lock must be free once every caller has returned: the next call would block forever otherwise (and the
+	// sequential drain below would never return)
+	if alloc.mutex != (ksync.Spinlock{}) {
+		return "the allocator lock is left held after all callers returned: the next call blocks forever"
+	}
 	// a final sequential drain recovers exactly the un-held frames
 	got := map[mm.Frame]bool{}
 	for i := 0; i <= w.total+1; i++ {
